@@ -29,6 +29,7 @@ mod c13;
 mod c14;
 mod c15;
 mod c16;
+mod c17;
 mod faults;
 
 use engine::{Property, RunCfg, Tier};
@@ -66,6 +67,7 @@ fn build(id: &str, ctx: &Ctx) -> Option<Property> {
         "C14" => c14::build(ctx),
         "C15" => c15::build(ctx),
         "C16" => c16::build(ctx),
+        "C17" => c17::build(ctx),
         _ => return None,
     })
 }
